@@ -142,6 +142,15 @@ pub fn parse_bucket(bytes: &[u8]) -> Vec<Line> {
                     let parts: Vec<&str> = s.split('\t').collect();
                     if parts.len() == 2 && sha256_hex(parts[1].as_bytes()) == parts[0] {
                         line.rec = Rec::from_json(parts[1]);
+                        // a record whose integrity text is not an integrity value at all (unknown algorithm, no
+                        // digest part) is a foreign record: ignored, like a record that fails its checksum
+                        if let Some(r) = &line.rec {
+                            if let Some(i) = &r.integrity {
+                                if !sri_parses(i) {
+                                    line.rec = None;
+                                }
+                            }
+                        }
                     }
                 }
             }
@@ -154,6 +163,14 @@ pub fn parse_bucket(bytes: &[u8]) -> Vec<Line> {
         i += 1;
     }
     out
+}
+
+/// the grammar the library's integrity parser accepts: whitespace-separated `<algorithm>-<digest>` items
+pub fn sri_parses(s: &str) -> bool {
+    s.split_whitespace().all(|h| {
+        let mut it = h.trim().split('-');
+        matches!(it.next(), Some("sha1") | Some("sha256") | Some("sha384") | Some("sha512") | Some("xxh3")) && it.next().is_some()
+    })
 }
 
 /// What a lookup of `key` must return given the valid records of its bucket, in file order.
